@@ -50,8 +50,10 @@ CLAIMS = {
         technique="Lean 4 proof (induction; decide +kernel over regenerated tables) + differential correspondence on type-directed canonical text",
         design="DESIGN.md §5 C01"),
     'C02': dict(
-        text="Proved for every index and table length: a value filed under position i is rendered after exactly i separators and nothing else (also the open-ended "
-             "case for any N); per version by kernel evaluation: tables gap-free and ordered (segWF) and every declared segment instantiable in the model of the "
+        text="Proved for every level list (any depth, separators, widths) and every path inside the tables: a value alone at the path (i, r, j, k, ...) of the cascade is ENCODED as exactly "
+             "p_i separators of each positional level in front of it and nothing else (C02_cascade_enc), and that text is PARSED back into the tree holding the value at that very path "
+             "(C02_cascade_parse; value non-empty and free of the pairwise distinct separators). One level: a value filed under position i is rendered after exactly i separators "
+             "and nothing else (also the open-ended case for any N); per version by kernel evaluation: tables gap-free and ordered (segWF) and every declared segment instantiable in the model of the "
              "constructor, which keeps each partial Python operation as a crash branch (segInstantiable). The thorough tier compares model and /repo on EVERY "
              "segment position and every component/subcomponent position of every complex datatype of all 12 versions; quick does two versions by seed plus samples.",
         note=NOTE_COMMON + "Probe values are short literals valid for the position's datatype; TOLERANT level; default delimiters.",
